@@ -90,10 +90,11 @@ MODELLED = ("ak/llparser.py: _get_nullables, _calc_first_sets, _calc_follow_sets
 
 def gen_consts(repo):
     """C02/SessionTok.v and C02/PropsTok.v import C01's end-to-end model (C01/RunTok.v) over the tokenizer model
-    coq/C04/Model.v, which needs the constants read from the current source by C04's extractor (fail closed there:
-    $END$ name, the default skip list and the shape `if skip_tokens is None:` in front of it, white space table)"""
-    from harness.props import c04
-    return c04.gen_consts(repo)
+    coq/C04/Model.v.  Both need constants read from the current source, fail closed: gen/C04_Consts.v by C04's extractor
+    ($END$ name, the default skip list and the shape `if skip_tokens is None:` in front of it, white space table) and
+    gen/C01_Consts.v by C01's (how the tokenizer stores the synonyms / keywords dicts); C01's gen_consts delivers both"""
+    from harness.props import c01
+    return c01.gen_consts(repo)
 
 
 # ------------------------------------------------------------------ reference: derivation trees (independent)
@@ -773,6 +774,11 @@ def gen_tok_case(rng, diag):
         # parse(text, start_symbol_name=''): a falsy name that IS given (a symbol of the grammar, or an unknown name: refused)
         for w in (0, 1):
             prog.insert(rng.randint(2, len(prog)), ["parse_from", w, rng.randrange(len(inputs)), ""])
+    if rng.random() < 0.5:
+        # after the last constructor call the caller re-uses / changes the collections it passed (skip_tokens list or set,
+        # synonyms, keywords dicts): the parsers must have kept their own copies
+        last = max(k for k, op in enumerate(prog) if op[0] == "build")
+        prog.insert(rng.randint(last + 1, max(last + 1, (last + 1 + len(prog)) // 2)), ["touch", 0])
     return {"g": g, "inputs": inputs, "texts": texts, "tok": tk, "diag": diag, "src": "tok", "prog": prog}
 
 
@@ -850,12 +856,19 @@ def make_prog(rng, n, nts):
     return ops
 
 
-def _prog(case):
-    """the program of a case (cases written before programs existed get a fixed pseudo-random one)"""
+def _prog_full(case):
+    """the program of a case (cases written before programs existed get a fixed pseudo-random one), including the
+    harness-only operation ["touch", w]: the CALLER changes the argument objects it gave to the constructor (see impl_run)"""
     if case.get("prog") is not None:
         return case["prog"]
     import random
     return make_prog(random.Random(20261001 + len(case["inputs"])), len(case["inputs"]), case["g"]["nts"])
+
+
+def _prog(case):
+    """the operations the model knows (a parser is a value there: what the caller does to the argument objects after the
+    constructor returned is no operation of the model, and must not be one of the implementation's objects either)"""
+    return [op for op in _prog_full(case) if op[0] != "touch"]
 
 
 def gen_cases(rng, tier):
@@ -963,6 +976,29 @@ def _tok_kwargs(tk, g):
     return kwargs
 
 
+def _touch_args(kwargs, case):
+    """the caller changes the mutable collections it handed to the constructor: the skip collection gets every token name
+    the texts use, the synonyms / keywords dicts are emptied (or, when empty, get entries that would rename the tokens)"""
+    names = sorted({n for inp in case["inputs"] for n, _ in inp} | {"SPACE", "WS", "WORD"})
+    sk = kwargs.get("skip_tokens")
+    if isinstance(sk, list):
+        sk.extend(names)
+    elif isinstance(sk, set):
+        sk.update(names)
+    syn = kwargs.get("synonyms")
+    if isinstance(syn, dict):
+        if syn:
+            syn.clear()
+        else:
+            syn.update({"WORD": "NUM", "SPACE": "WORD", "WS": "WORD"})
+    kw = kwargs.get("keywords")
+    if isinstance(kw, dict):
+        if kw:
+            kw.clear()
+        else:
+            kw.update({("WORD", v): "NUM" for _, v in [t for inp in case["inputs"] for t in inp if t[0] == "WORD"]})
+
+
 def _args_repr(kwargs):
     return sorted((k, type(v).__name__, repr(sorted(v, key=repr)) if isinstance(v, (set, frozenset)) else repr(v))
                   for k, v in kwargs.items())
@@ -986,10 +1022,15 @@ def impl_run(case):
         texts = [" ".join(v for _, v in inp) for inp in case["inputs"]]
         kwargs = {"start_symbol_name": g["start"]}
     args_before = _args_repr(kwargs)
+    args_after = None
     objs = {0: None, 1: None}
     out = []
-    for op in _prog(case):
+    for op in _prog_full(case):
         w = op[1]
+        if op[0] == "touch":
+            args_after = _args_repr(kwargs)
+            _touch_args(kwargs, case)
+            continue
         if op[0] == "build":
             objs[w] = None
             try:
@@ -1025,7 +1066,8 @@ def impl_run(case):
     obs = {"ops": out}
     if case.get("diag"):
         obs["diag"] = [_diag_obs(objs[w]) if objs[w] is not None else None for w in (0, 1)]
-    args_after = _args_repr(kwargs)
+    if args_after is None:
+        args_after = _args_repr(kwargs)
     if args_after != args_before:
         obs["args_changed"] = [args_before, args_after]
     return obs
@@ -1375,7 +1417,7 @@ def _restrict(case, keep):
     """the case with only the inputs `keep` (indices), the program's parse ops re-numbered / dropped accordingly"""
     idx = {i: k for k, i in enumerate(keep)}
     prog = []
-    for op in _prog(case):
+    for op in _prog_full(case):
         if op[0] in ("parse", "parse_from"):
             if op[2] in idx:
                 prog.append([op[0], op[1], idx[op[2]]] + list(op[3:]))
@@ -1390,7 +1432,7 @@ def _restrict(case, keep):
 def shrink_candidates(case):
     g = case["g"]
     n = len(case["inputs"])
-    prog = _prog(case)
+    prog = _prog_full(case)
     if n > 1:
         for i in range(n):
             yield _restrict(case, [i])
